@@ -576,7 +576,7 @@ pub fn run(cfg: &Cfg, rep: &mut Report) {
         let (b, script) = &directed_ref[idx as usize];
         play(b, script, r, &|| crate::util::replay_ref(cfg, "directed", idx));
     });
-    let n = cfg.n(600_000, 6_000_000);
+    let n = cfg.n(600_000, 40_000_000);
     run_stage(cfg, rep, "scripts", n, |idx, rng, r| {
         let b = gen_buffer(rng, idx);
         let script = gen_script(rng, b.len());
